@@ -195,90 +195,111 @@ pub fn get_extension(s: &str) -> String {
     }
 }
 
+/// `number * multiplier` bytes, rounded down. The float product can land just below a whole
+/// number (1.001 * 1000.0 is 1000.9999999999999), so a plain decimal number is scaled in integers.
+fn scale_size(number: &str, size: f64, multiplier: u64) -> u64 {
+    let (int, frac) = number.split_once('.').unwrap_or((number, ""));
+    let int = int.strip_prefix('+').unwrap_or(int);
+    let plain = !(int.is_empty() && frac.is_empty())
+        && int.bytes().chain(frac.bytes()).all(|b| b.is_ascii_digit());
+
+    if plain {
+        let digits = format!("{}{}", int, frac).parse::<u128>().ok();
+        let denominator = 10u128.checked_pow(frac.len() as u32);
+        if let (Some(digits), Some(denominator)) = (digits, denominator) {
+            if let Some(product) = digits.checked_mul(multiplier as u128) {
+                return u64::try_from(product / denominator).unwrap_or(u64::MAX);
+            }
+        }
+    }
+
+    (size * multiplier as f64) as u64
+}
+
 pub fn parse_filesize(s: &str) -> Option<u64> {
     let string = s.to_string().to_ascii_lowercase().replace(" ", "");
     let length = string.len();
 
     if length > 1 && string.ends_with("k") {
         return match &string[..(length - 1)].parse::<f64>() {
-            Ok(size) => Some((*size * 1024.0) as u64),
+            Ok(size) => Some(scale_size(&string[..(length - 1)], *size, 1024)),
             _ => None,
         };
     }
 
     if length > 2 && string.ends_with("kb") {
         return match &string[..(length - 2)].parse::<f64>() {
-            Ok(size) => Some((*size * 1000.0) as u64),
+            Ok(size) => Some(scale_size(&string[..(length - 2)], *size, 1000)),
             _ => None,
         };
     }
 
     if length > 3 && string.ends_with("kib") {
         return match &string[..(length - 3)].parse::<f64>() {
-            Ok(size) => Some((*size * 1024.0) as u64),
+            Ok(size) => Some(scale_size(&string[..(length - 3)], *size, 1024)),
             _ => None,
         };
     }
 
     if length > 1 && string.ends_with("m") {
         return match &string[..(length - 1)].parse::<f64>() {
-            Ok(size) => Some((*size * 1024.0 * 1024.0) as u64),
+            Ok(size) => Some(scale_size(&string[..(length - 1)], *size, 1024 * 1024)),
             _ => None,
         };
     }
 
     if length > 2 && string.ends_with("mb") {
         return match &string[..(length - 2)].parse::<f64>() {
-            Ok(size) => Some((*size * 1000.0 * 1000.0) as u64),
+            Ok(size) => Some(scale_size(&string[..(length - 2)], *size, 1000 * 1000)),
             _ => None,
         };
     }
 
     if length > 3 && string.ends_with("mib") {
         return match &string[..(length - 3)].parse::<f64>() {
-            Ok(size) => Some((*size * 1024.0 * 1024.0) as u64),
+            Ok(size) => Some(scale_size(&string[..(length - 3)], *size, 1024 * 1024)),
             _ => None,
         };
     }
 
     if length > 1 && string.ends_with("g") {
         return match &string[..(length - 1)].parse::<f64>() {
-            Ok(size) => Some((*size * 1024.0 * 1024.0 * 1024.0) as u64),
+            Ok(size) => Some(scale_size(&string[..(length - 1)], *size, 1024 * 1024 * 1024)),
             _ => None,
         };
     }
 
     if length > 2 && string.ends_with("gb") {
         return match &string[..(length - 2)].parse::<f64>() {
-            Ok(size) => Some((*size * 1000.0 * 1000.0 * 1000.0) as u64),
+            Ok(size) => Some(scale_size(&string[..(length - 2)], *size, 1000 * 1000 * 1000)),
             _ => None,
         };
     }
 
     if length > 3 && string.ends_with("gib") {
         return match &string[..(length - 3)].parse::<f64>() {
-            Ok(size) => Some((*size * 1024.0 * 1024.0 * 1024.0) as u64),
+            Ok(size) => Some(scale_size(&string[..(length - 3)], *size, 1024 * 1024 * 1024)),
             _ => None,
         };
     }
 
     if length > 1 && string.ends_with("t") {
         return match &string[..(length - 1)].parse::<f64>() {
-            Ok(size) => Some((*size * 1024.0 * 1024.0 * 1024.0 * 1024.0) as u64),
+            Ok(size) => Some(scale_size(&string[..(length - 1)], *size, 1024 * 1024 * 1024 * 1024)),
             _ => None,
         };
     }
 
     if length > 2 && string.ends_with("tb") {
         return match &string[..(length - 2)].parse::<f64>() {
-            Ok(size) => Some((*size * 1000.0 * 1000.0 * 1000.0 * 1000.0) as u64),
+            Ok(size) => Some(scale_size(&string[..(length - 2)], *size, 1000 * 1000 * 1000 * 1000)),
             _ => None,
         };
     }
 
     if length > 3 && string.ends_with("tib") {
         return match &string[..(length - 3)].parse::<f64>() {
-            Ok(size) => Some((*size * 1024.0 * 1024.0 * 1024.0 * 1024.0) as u64),
+            Ok(size) => Some(scale_size(&string[..(length - 3)], *size, 1024 * 1024 * 1024 * 1024)),
             _ => None,
         };
     }
